@@ -112,7 +112,7 @@ def main() -> int:
         print(f"KNOWN-FINDING: property={prop} {fid} {kf.get('what','')} ({n} cases; e.g. {json.dumps(first.get('case'))[:160]})")
     rc = 0
     # old artefacts of this property are removed so a replay path always belongs to this run
-    rdir = HERE / "replays" / prop
+    rdir = evidence.OUT / "replays" / prop
     if rdir.exists():
         for p in rdir.glob("violation_*.json"):
             p.unlink()
